@@ -429,7 +429,7 @@ class CFG:
                     break
         return out
 
-    def controlling(self, v):
+    def controlling(self, v, avoid=()):
         """Branch decisions that *dominate* vertex v: [(cond Node, bool)] such that every path from
         entry to v takes that edge. (Edge-dominance computed by testing reachability without the edge.)"""
         out = []
@@ -437,7 +437,7 @@ class CFG:
             if b.get('cond') is None or len(b['succ']) != 2:
                 continue
             last = self.block_last[bid]
-            if not self.dominates(last, v) or last == v:
+            if last == v or (not avoid and not self.dominates(last, v)):
                 continue
             for way in (True, False):
                 other = (bid, not way)
@@ -447,7 +447,7 @@ class CFG:
                         return False
                     return True
                 # v unreachable from entry when edge (bid,way) is removed  => edge dominates v
-                r = self.reach_from(self.entry, edge_ok=ok)
+                r = self.reach_from(self.entry, avoid=avoid, edge_ok=ok)
                 if v not in r and v != self.entry:
                     out.append((self.cond_node(bid), way))
         return out
